@@ -304,6 +304,11 @@ func TestChainTransparency(t *testing.T) {
 				if isApp {
 					found++
 					first = c
+					if found == 1 && ci != 0 {
+						// the armed failure is the next call of the sink: an asynchronous retransmission got there first, so it was that
+						// one the transport refused, not the application's packet
+						fail = false
+					}
 
 					continue
 				}
